@@ -41,6 +41,8 @@ def cases(tier, rng, boost=1):
     yield _mk('mcmc_public', trajs=[[1, 2, 1, 2, 1, 2, 1, 3, 1, 3, 1, 5, 1, 4, 4, 1]], lag=1, steps=8, start=1, useed=4,
               src='corpus', force_top=True)
     yield _mk('tmat_public', counts=[[1, 1], [1, 3]], steps=5, start=0, useed=5, src='corpus')
+    # rare transition: T_01 = T_02 < 1e-5 (tails of the cumulative row must stay reachable)
+    yield _mk('mcmc_public', trajs=[[0] * 120000 + [1, 0, 2, 1, 2, 0, 0, 1, 1, 2, 2, 0]], lag=1, steps=4, start=0, useed=6, src='corpus')
     n_models = {'quick': 150, 'thorough': 1500, 'search': 500}[tier] * boost
     for m in range(n_models):
         n = rng.randint(2, 8)
